@@ -309,4 +309,20 @@ UNITS += [
 ]
 
 KANI = []
+# ---- which index files prune rewrites: a pack whose decision changes the index forces its index file to be processed
+UNITS += [
+    Unit(name="pack_forces_index_rewrite", file=PR, kind="block", within="fn filter_index_files(&mut self, instant_delete: bool)",
+         anchor="@closure:.any(|p|", 
+         block_sig="fn pack_forces_index_rewrite(p: &PrunePack, instant_delete: bool) -> (r: bool)",
+         block_tail="",
+         functions=["commands::prune::PrunePlan::filter_index_files (per-pack predicate of `must_modify`)"],
+         contract="""
+    ensures
+        // a decision that is carried out by rewriting the pack's index entry (repack, mark, bring back, remove, correct the
+        // mark time) must make prune process the index file that lists the pack: otherwise the decision is silently dropped
+        /*@index_changing_decision_forces_rewrite*/ (p.to_do == PackToDo::Repack || p.to_do == PackToDo::MarkDelete || p.to_do == PackToDo::Recover
+            || p.to_do == PackToDo::Delete || p.to_do == PackToDo::KeepMarkedAndCorrect) ==> r,
+"""),
+]
+
 META = {"not_covered": []}
